@@ -266,6 +266,9 @@ type Modem struct {
 	// flushed: its queue (which also holds the frame header and block framing bytes) is then always
 	// larger than the number of message bytes handed over so far.
 	Quarters int
+	// QueryDelay is how long TxBufferLen takes (a modem answers the buffer query over its command link, and
+	// the query may have to wait for a command in progress).
+	QueryDelay time.Duration
 }
 
 // NewModem wraps e.
@@ -282,6 +285,9 @@ func (m *Modem) Flush() error {
 }
 
 func (m *Modem) TxBufferLen() int {
+	if m.QueryDelay > 0 {
+		time.Sleep(m.QueryDelay)
+	}
 	q := m.Quarters
 	if q <= 0 || q > 4 {
 		q = 2
